@@ -162,7 +162,13 @@ Fixpoint resolve (cx : pctx) (e : pexp) : outcome cexpr :=
   match e with
   | PNum v => Ok (CNum (wrap32 v))                          (* `value as i32` *)
   | PHere => Ok (CNum (wrap32 (c_here cx)))
-  | PSizeOf k s => d <- qualify (c_ns cx) k s ;; Ok (CSizeof d)
+  | PSizeOf k s =>
+    (* like a label: a size that can be computed now is captured by value (repair 86e9815) *)
+    d <- qualify (c_ns cx) k s ;;
+    match eval_top (c_st cx) [NSizeOf d] with
+    | Val v => Ok (CNum v)
+    | _ => Ok (CSizeof d)
+    end
   | PLabel k s =>
     d <- qualify (c_ns cx) k s ;;
     match solved_now (c_st cx) d with
